@@ -12,7 +12,7 @@ _STRENGTH = {"Relaxed": 0, "Acquire": 1, "Release": 1, "AcqRel": 2, "SeqCst": 3}
 def extract_params():
     sig, _, _ = harness("channel", "--signature")
     stale = []
-    c = dict(OrdLoad="Relaxed", OrdDeqOk="Acquire", OrdDeqFail="Relaxed", OrdEnqOk="Release",
+    c = dict(OrdDeqLoad="Relaxed", OrdEnqLoad="Relaxed", OrdDeqOk="Acquire", OrdDeqFail="Relaxed", OrdEnqOk="Release",
              OrdEnqFail="Relaxed", SLOTS=5, BITS=3)
     send, recv = sig["send"], sig["recv"]
     want_s = [("load", "empty"), ("cas_weak", "empty"), ("load", "full"), ("cas_weak", "full")]
@@ -22,13 +22,19 @@ def extract_params():
     if [(k, l) for k, l, _, _ in recv] != want_r:
         stale.append("recv(): unmodelled step shape %s" % [(k, l) for k, l, _, _ in recv])
     if not stale:
-        weakest = lambda xs: min(xs, key=lambda o: _STRENGTH.get(o, 0))
-        c["OrdLoad"] = weakest([send[0][2], send[2][2], recv[0][2], recv[2][2]])
-        c["OrdDeqOk"] = weakest([send[1][2], recv[1][2]])
-        c["OrdDeqFail"] = weakest([send[1][3], recv[1][3]])
-        c["OrdEnqOk"] = weakest([send[3][2], recv[3][2]])
-        c["OrdEnqFail"] = weakest([send[3][3], recv[3][3]])
-        # the model has one constant per role; if send and recv disagree keep the weaker and say so
+        # dequeue = steps 0,1 of both; enqueue = steps 2,3 of both. send and recv call the same two
+        # functions, so their orderings must agree; if they do not, the model has no constant for
+        # that and is declared stale rather than guessing.
+        def same(a, b, what):
+            if a != b:
+                stale.append("%s differs between send and recv (%s vs %s)" % (what, a, b))
+            return a
+        c["OrdDeqLoad"] = same(send[0][2], recv[0][2], "ordering of dequeue's load")
+        c["OrdDeqOk"] = same(send[1][2], recv[1][2], "success ordering of dequeue's CAS")
+        c["OrdDeqFail"] = same(send[1][3], recv[1][3], "failure ordering of dequeue's CAS")
+        c["OrdEnqLoad"] = same(send[2][2], recv[2][2], "ordering of enqueue's load")
+        c["OrdEnqOk"] = same(send[3][2], recv[3][2], "success ordering of enqueue's CAS")
+        c["OrdEnqFail"] = same(send[3][3], recv[3][3], "failure ordering of enqueue's CAS")
     words = sig["words"]
     e0 = words[0][0]
     # BITS: full word after two sends is idx1 + idx2 << BITS
